@@ -51,6 +51,10 @@ func validValue(r *rand.Rand, typ string) string {
 		return "" // the one lexical value of type empty
 	case "boolean":
 		return []string{"true", "false"}[r.Intn(2)]
+	case "enum":
+		return []string{"on", "off"}[r.Intn(2)]
+	case "union": // of int8 and boolean
+		return append([]string{"true", "false"}, intToks...)[r.Intn(2+len(intToks))]
 	}
 	return strToks[r.Intn(len(strToks))]
 }
@@ -61,7 +65,9 @@ func RandPath(r *rand.Rand, sh Shape) []string {
 	names := []string{}
 	allNames(sh.Kids, &names)
 	junk := func() string {
-		switch r.Intn(8) {
+		switch r.Intn(10) {
+		case 9:
+			return []string{"true", "on"}[r.Intn(2)] // values of boolean / union / enumeration only (and strings)
 		case 7:
 			return specialToks[r.Intn(len(specialToks))]
 		case 0:
@@ -104,6 +110,8 @@ walk:
 			}
 			kids = c.Kids
 		default:
+			// a leaf or leaf-list of any type: mostly with a value, sometimes the name ends the path
+			// (type empty: half the time, its only value being the empty token)
 			if r.Intn(5) != 0 && (BaseType(c.Typ) != "empty" || r.Intn(2) == 0) {
 				p = append(p, validValue(r, c.Typ))
 			}
